@@ -167,12 +167,18 @@ fn hook_windows(c: &mut Case) {
 
 /// Run B: shutdown requested at every executor step of a scripted connection.
 fn shutdown_points(c: &mut Case, scale: Scale) {
-    let pipelined = c.rng.chance(1, 3);
+    let pipelined = c.rng.chance(1, 2);
     let mut case: ConnCase = conn::gen_conn(&mut c.rng, &GenOpts { max_requests: 3, extra_pct: 10, big: false, keep_conn_pct: 100, no_begin_extras: false });
     if case.wire.len() > 3000 {
         return;
     }
+    // (a role without input streams has no terminator behind which look-ahead could wait: the stream
+    // parser, active stream None, would interpret a pipelined BeginRequest itself — see §9.4)
+    let pipelined = pipelined && case.reqs.iter().all(|r| r.preamble.role != crate::wire::AUTHORIZER);
     if pipelined {
+        // (the whole next request must fit into the look-ahead: large buffer, large pieces)
+        case.buffer = 8192;
+        case.max_piece = 100_000;
         // a client that does not wait for EndRequest: every handler reads its input to the end so
         // that the next request stays buffered behind the held terminator
         case.barriers.clear();
